@@ -153,7 +153,11 @@ func c13Generate(c *c13) {
 	sweeps := c.r.N(5000, 110000)
 	per := sweeps / traces
 	for i := 0; i < traces; i++ {
-		c13Trace(c, g, i)
+		if g.Chance(6) {
+			c13MultiTrace(c, g)
+		} else {
+			c13Trace(c, g, i)
+		}
 		for j := 0; j < per; j++ {
 			c13Sweep(c, g)
 		}
@@ -306,6 +310,9 @@ func c13Trace(c *c13, g *Rng, idx int) {
 	if g.Chance(10) {
 		c.do(createLine(genAlloc, m, nn, cc, L, liqPart, vestDur)) // second plan for the same rollapp
 	}
+	if g.Chance(12) {
+		c13Chown(c, g, n, "before-start")
+	}
 	for a := 1; a < n; a++ {
 		if g.Chance(85) {
 			c.do(fmt.Sprintf("fund %d %s", a, c13Around(g, budget).AddRaw(1)))
@@ -314,14 +321,36 @@ func c13Trace(c *c13, g *Rng, idx int) {
 
 	steps := 25 + g.Intn(45)
 	settled := false
+	restartAt := -1
+	if g.Chance(10) {
+		restartAt = g.Intn(steps + 12) // before or after settlement
+	}
 	for s := 0; s < steps; s++ {
+		if s == restartAt {
+			c.r.Hit("restart/in-single-plan-trace")
+			if settled {
+				c.r.Hit("restart/after-settlement")
+			}
+			if c.do("restart")[:2] != "ok" {
+				return
+			}
+		}
 		p, ok := c.plan()
 		if !ok {
 			return
 		}
+		own := c.ownerIdx()
 		a := g.Intn(n)
 		if g.Chance(15) {
-			a = 0
+			a = own
+		}
+		if g.Chance(2) {
+			if settled {
+				c13Chown(c, g, n, "after-settlement")
+			} else {
+				c13Chown(c, g, n, "while-trading")
+			}
+			continue
 		}
 		addr := c.actors[a]
 		remaining := p.MaxAmountToSell.Sub(p.SoldAmt)
@@ -344,9 +373,12 @@ func c13Trace(c *c13, g *Rng, idx int) {
 				}
 				c.do(fmt.Sprintf("claim %d", who))
 			case w < 45:
-				who := 0
+				who := own
 				if g.Chance(15) {
 					who = a
+				}
+				if who != own && who == 0 {
+					c.r.Hit("owner/former-owner-claims-vested")
 				}
 				c.do(fmt.Sprintf("claimv %d", who))
 			case w < 72:
@@ -370,7 +402,7 @@ func c13Trace(c *c13, g *Rng, idx int) {
 			case w < 97:
 				c.do(fmt.Sprintf("settle %s", c13Pick(g, "0", genAlloc.String())))
 			default:
-				c.do(fmt.Sprintf("enable 0"))
+				c.do(fmt.Sprintf("enable %d", own))
 			}
 			continue
 		}
@@ -404,11 +436,17 @@ func c13Trace(c *c13, g *Rng, idx int) {
 			if g.Chance(3) {
 				maxCost = math.ZeroInt()
 			}
-			if a != 0 && !started {
+			if a != own && !started {
 				c.r.Hit("gating/non-owner-before-start")
+				if a == 0 {
+					c.r.Hit("owner/former-owner-before-start")
+				}
 			}
-			if a == 0 && !started {
+			if a == own && !started {
 				c.r.Hit("gating/owner-before-start")
+				if own != 0 {
+					c.r.Hit("owner/new-owner-before-start")
+				}
 			}
 			c.do(fmt.Sprintf("buy %d %s %s", a, amt, maxCost))
 		case w < 38: // buy exact spend
@@ -472,7 +510,7 @@ func c13Trace(c *c13, g *Rng, idx int) {
 		case w < 74:
 			c.do(fmt.Sprintf("time %d", []int64{1, int64(time.Second), int64(time.Minute), int64(time.Hour), int64(2 * time.Hour)}[g.Intn(5)]))
 		case w < 80:
-			who := 0
+			who := own
 			if g.Chance(30) {
 				who = a
 			}
@@ -488,7 +526,7 @@ func c13Trace(c *c13, g *Rng, idx int) {
 		case w < 91:
 			c.do(fmt.Sprintf("claim %d", a))
 		case w < 93:
-			c.do(fmt.Sprintf("claimv %d", g.Intn(2)*a))
+			c.do(fmt.Sprintf("claimv %d", []int{own, a}[g.Intn(2)]))
 		default: // settle; more likely late in the trace
 			if s*3 < steps && g.Chance(70) {
 				c.do(fmt.Sprintf("time %d", int64(time.Minute)))
@@ -504,6 +542,27 @@ func c13Trace(c *c13, g *Rng, idx int) {
 				settled = true
 				steps += 12
 			}
+		}
+	}
+}
+
+// c13Chown: the real MsgTransferOwnership of the current rollapp: mostly owner → somebody else, sometimes
+// by a non-owner, to himself, or straight back
+func c13Chown(c *c13, g *Rng, n int, when string) {
+	own := c.ownerIdx()
+	to := (own + 1 + g.Intn(n-1)) % n
+	switch g.Intn(8) {
+	case 0:
+		c.do(fmt.Sprintf("chown %d %d", to, own)) // not the owner
+	case 1:
+		c.do(fmt.Sprintf("chown %d %d", own, own)) // same owner
+	case 2:
+		c.do(fmt.Sprintf("chown %d %d", own, to))
+		c.do(fmt.Sprintf("chown %d %d", own, to)) // the former owner once more
+		c.do(fmt.Sprintf("chown %d %d", to, own)) // and back
+	default:
+		if c.do(fmt.Sprintf("chown %d %d", own, to))[:2] == "ok" {
+			c.r.Hit("owner/changed-" + when)
 		}
 	}
 }
@@ -557,5 +616,116 @@ func c13RoundTrip(c *c13, g *Rng, a int, curve irotypes.BondingCurve) {
 	}
 	if left.IsZero() {
 		c.r.Hit("roundtrip/completed")
+	}
+}
+
+// c13MultiTrace: several rollapps with a plan each (own curve), trades / settlement / claims interleaved
+// over the plans, restarts in between, plans created after a restart.
+func c13MultiTrace(c *c13, g *Rng) {
+	c.r.Hit("multi/trace")
+	L := c13RandL(g)
+	feeBase := L == 18 && g.Chance(50)
+	takerFee := c13Pick(g, "20000000000000000", "20000000000000000", "1000000000000000", "100000000000000000")
+	genAlloc := []math.Int{p10(21), p10(24), p10(19).Add(c13RandBelow(g, p10(24)))}[g.Intn(3)]
+	n := 3
+	c.do(fmt.Sprintf("reset %s %s 400000000000000000 0 0 %s %d %s %d", takerFee, p10(18), b01(feeBase), n, genAlloc, L))
+	type ms struct {
+		curve   irotypes.BondingCurve
+		budget  math.Int
+		created bool
+		settled bool
+	}
+	var sl []*ms
+	addSlot := func() {
+		if len(sl) > 0 {
+			c.do("newra")
+		}
+		m, nn, cc := c13Curve(g)
+		curve := irotypes.BondingCurve{M: c13Dec(m), N: c13Dec(nn), C: c13Dec(cc), RollappDenomDecimals: 18, LiquidityDenomDecimals: uint64(L)}
+		full := c13SafeCost(curve, math.ZeroInt(), genAlloc)
+		st := &ms{curve: curve, budget: c13Max(full.MulRaw(3), p10(L+2))}
+		sl = append(sl, st)
+		c.do(fmt.Sprintf("fund 0 %s", st.budget))
+		enabled := g.Chance(80)
+		o := c.do(fmt.Sprintf("create %s %s %s %s %d %s 0 %d %s %d %d", genAlloc, m, nn, cc, L, b01(enabled), int64(time.Hour), c13Pick(g, "400000000000000000", "500000000000000000", "1000000000000000000"), []int64{0, 3, int64(time.Hour)}[g.Intn(3)], []int64{0, 1}[g.Intn(2)]))
+		st.created = o[:2] == "ok"
+		for a := 1; a < n; a++ {
+			c.do(fmt.Sprintf("fund %d %s", a, c13Around(g, st.budget).AddRaw(1)))
+		}
+	}
+	k0 := 2 + g.Intn(3)
+	for i := 0; i < k0; i++ {
+		addSlot()
+	}
+	steps := 30 + g.Intn(40)
+	for s := 0; s < steps; s++ {
+		w := g.Intn(100)
+		switch {
+		case w < 6:
+			c.r.Hit("restart/in-multi-plan-trace")
+			if c.do("restart")[:2] != "ok" {
+				return
+			}
+			if g.Chance(50) && len(sl) < 7 {
+				c.r.Hit("multi/create-right-after-restart")
+				addSlot()
+			}
+			continue
+		case w < 10:
+			if len(sl) < 7 {
+				addSlot()
+			}
+			continue
+		case w < 35:
+			c.do(fmt.Sprintf("sel %d", g.Intn(len(sl))))
+			continue
+		case w < 40:
+			c.do(fmt.Sprintf("time %d", []int64{1, int64(time.Second), int64(time.Hour)}[g.Intn(3)]))
+			continue
+		}
+		st := sl[c.cur]
+		p, ok := c.plan()
+		if !ok {
+			c.do(fmt.Sprintf("buy 1 %s %s", p10(18), c13Huge)) // no plan for this rollapp
+			c.do(fmt.Sprintf("sel %d", g.Intn(len(sl))))
+			continue
+		}
+		a := g.Intn(n)
+		addr := c.actors[a]
+		iroBal := c.f.Bal(addr, c.iroDenom)
+		liqBal := c.f.Bal(addr, c.liq)
+		remaining := p.MaxAmountToSell.Sub(p.SoldAmt)
+		if st.settled {
+			switch g.Intn(5) {
+			case 0, 1:
+				c.do(fmt.Sprintf("claim %d", a))
+			case 2:
+				c.do("claimv 0")
+			case 3:
+				c.do(fmt.Sprintf("buy %d %s %s", a, p10(18), c13Huge))
+			default:
+				if iroBal.IsPositive() {
+					c.do(fmt.Sprintf("xfer %d %d %s", a, g.Intn(n), c13Around(g, iroBal).AddRaw(1)))
+				}
+			}
+			continue
+		}
+		switch {
+		case w < 60:
+			amt := c13Around(g, c13Max(remaining.QuoRaw(int64(2+g.Intn(20))), math.OneInt())).AddRaw(1)
+			c.do(fmt.Sprintf("buy %d %s %s", a, amt, c13Huge))
+		case w < 70:
+			spend := c13Around(g, c13Max(liqBal.QuoRaw(int64(3+g.Intn(30))), math.OneInt())).AddRaw(1)
+			c.do(fmt.Sprintf("bes %d %s 1", a, spend))
+		case w < 85:
+			c.do(fmt.Sprintf("sell %d %s 1", a, c13Around(g, c13Max(iroBal, math.OneInt()))))
+		case w < 90:
+			c.do("enable 0")
+		default:
+			if o := c.do(fmt.Sprintf("settle %s", genAlloc)); o[:2] == "ok" {
+				st.settled = true
+				c.r.Hit("multi/settled-one-of-many")
+			}
+		}
 	}
 }
